@@ -592,6 +592,8 @@ def one_shot_recipes(repo: Repo, res: CheckResult) -> None:
                     p = m.parent(u)
                     if isinstance(p, ast.Call) and norm(p.func) in ("tuple", "list") and p.args and p.args[0] is u:
                         consuming.append(("materialise", u))
+                    elif isinstance(p, ast.Starred) and isinstance(m.parent(p), (ast.Tuple, ast.List)):
+                        consuming.append(("materialise", u))      # (*recipe, ...) builds the tuple in one pass
                     elif isinstance(p, ast.keyword) or (isinstance(p, ast.Call) and u in p.args):
                         consuming.append(("passed", u))      # handed over unchanged to another receiver: that one materialises
                     elif isinstance(p, ast.IfExp) and p.test is u or isinstance(p, ast.If) and p.test is u:
